@@ -474,72 +474,81 @@ def rule_C1(ctx):
 
 
 def rule_C2(ctx):
+    """cue sheet -> image, decided per symbolic path on value-flow terms: a data track anywhere -> the bin is detected like a
+    raw image; all tracks audio -> CDDA over the bin with the sheet's tracks; otherwise BadCueSheet"""
     fn = ctx.fn(ACT, "attempt_parse_cue_sheet", "C2")
-    # existential test for a data track
-    asg = [a for a in own_nodes(fn) if isinstance(a, ast.Assign) and norm(a.targets[0]) == "binary_track"]
-    ok = len(asg) == 1
-    det = "data-track test not found"
-    if ok:
-        v = asg[0].value
-        gen = None
-        if isinstance(v, ast.Call) and norm(v.func) == "next" and len(v.args) == 2 and isinstance(v.args[0], ast.GeneratorExp) and norm(v.args[1]) == "None":
-            gen = v.args[0]
-        elif isinstance(v, ast.Call) and norm(v.func) == "any" and isinstance(v.args[0], ast.GeneratorExp):
-            gen = v.args[0]
-        ok = gen is not None and len(gen.generators) == 1 and norm(gen.generators[0].iter) == "cue_sheet_file.tracks"
-        if ok:
-            x = gen.generators[0].target.id
-            preds = [norm(i) for i in gen.generators[0].ifs] or [norm(gen.elt)]
-            ok = preds == [f"{x}.mode.lower() != 'audio'"]
-        det = "" if ok else f"data-track test is `{norm(v)[:120]}`: it must hold as soon as ANY track is not audio (mixed-mode discs have a data track plus audio tracks)"
-    ctx.ob("C2", asg[0] if asg else fn, "a cue sheet counts as a sampler image as soon as one track is not AUDIO", ok, det, inst="exists-data-track")
-    def opened_bin(expr, scope):
-        """expr evaluates to open(join(directory, cue.bin_file_name), 'rb') (directly, via locals, or via a same-module helper)"""
-        want = "open(os.path.join(directory, cue_sheet_file.bin_file_name), 'rb')"
-        v = expr
-        for _ in range(4):
-            if isinstance(v, ast.Name):
-                defs = [a for a in ast.walk(scope) if isinstance(a, ast.Assign) and norm(a.targets[0]) == v.id]
-                if len(defs) != 1:
-                    return False
-                v = defs[0].value
-            else:
-                break
-        txt = " ".join(ast.unparse(v).split())
-        # inline simple locals inside the expression
-        for a in ast.walk(scope):
-            if isinstance(a, ast.Assign) and isinstance(a.targets[0], ast.Name) and a.targets[0].id in txt and a.targets[0].id not in ("directory", "cue_sheet_file"):
-                txt = txt.replace(a.targets[0].id, " ".join(ast.unparse(a.value).split()))
-        if txt == want:
-            return True
-        if isinstance(v, ast.Call) and isinstance(v.func, ast.Name):
-            h = local_function(ctx, fn._module, v.func.id)
-            if h is not None and len(v.args) == len(h.args.args):
-                rc = return_canons(h)
-                sub = rc[0] if len(rc) == 1 else ""
-                for prm, arg in zip([a.arg for a in h.args.args], v.args):
-                    sub = sub.replace(prm, " ".join(ast.unparse(arg).split()))
-                return sub == want
-        return False
+    lines_p, dir_p = fn.args.args[0].arg, fn.args.args[1].arg
+    SHEET = f"parse_cue_sheet({lines_p})"
+    OPEN = f"open(os.path.join({dir_p},{SHEET}.bin_file_name),'rb')"
 
-    KEEP = ("cue_sheet_file", "directory")
-    nonaudio = "next((_c0 for _c0 in cue_sheet_file.tracks if _c0.mode.lower() != 'audio'), None)"
-    ifs = [i for i in own_nodes(fn) if isinstance(i, ast.If) and canon_expr(fn, i.test, KEEP) in (nonaudio, nonaudio + " is not None")]
-    ok = len(ifs) == 1
-    if ok:
-        calls = [c for st in ifs[0].body for c in ast.walk(st) if isinstance(c, ast.Call) and norm(c.func) == "determine_image_type"]
-        ok = len(calls) == 1 and len(calls[0].args) == 1 and opened_bin(calls[0].args[0], ifs[0]) and isinstance(ifs[0].body[-1], ast.Return) \
-            and canon_expr(fn, ifs[0].body[-1].value).startswith("determine_image_type(")
-    ctx.ob("C2", fn, "data-track cue: the bin file next to the cue sheet is opened and detected like a raw image", ok, "", inst="data-branch")
-    ifs = [i for i in own_nodes(fn) if isinstance(i, ast.If) and canon_expr(fn, i.test, KEEP) in ("all([_c0.mode.lower() == 'audio' for _c0 in cue_sheet_file.tracks])", "all((_c0.mode.lower() == 'audio' for _c0 in cue_sheet_file.tracks))")]
-    ok = len(ifs) == 1
-    if ok:
-        calls = [c for st in ifs[0].body for c in ast.walk(st) if isinstance(c, ast.Call) and norm(c.func) == "CompactDiskAudioImageAdapter.from_bin_cue"]
-        ok = len(calls) == 1 and len(calls[0].args) == 2 and opened_bin(calls[0].args[0], ifs[0]) and norm(calls[0].args[1]) == "cue_sheet_file" \
-            and isinstance(ifs[0].body[-1], ast.Return)
-    ctx.ob("C2", fn, "all-audio cue: the bin is read as CDDA with the cue sheet's tracks", ok, "", inst="audio-branch")
-    ok = norm(fn.body[0]) == "cue_sheet_file = parse_cue_sheet(lines)"
-    ctx.ob("C2", fn, "the decision is taken on the parsed cue sheet", ok, "", inst="parse-first")
+    def classify(test):
+        """('exists' | 'all', polarity) for the two track-mode tests, else None"""
+        neg = False
+        while isinstance(test, ast.UnaryOp) and isinstance(test.op, ast.Not):
+            test, neg = test.operand, not neg
+        t = canon_expr(fn, test)
+        tr = f"{SHEET}.tracks"
+        if t.endswith(" is not None"):
+            t = t[:-len(" is not None")]
+        elif t.endswith(" is None"):
+            t, neg = t[:-len(" is None")], not neg
+        ex = (f"next((_c0 for _c0 in {tr} if _c0.mode.lower() != 'audio'), None)", f"any((_c0.mode.lower() != 'audio' for _c0 in {tr}))",
+              f"any([_c0.mode.lower() != 'audio' for _c0 in {tr}])")
+        al = (f"all((_c0.mode.lower() == 'audio' for _c0 in {tr}))", f"all([_c0.mode.lower() == 'audio' for _c0 in {tr}])")
+        if t in ex:
+            return "exists", not neg
+        if t in al:
+            return "all", not neg
+        return None
+
+    seen = {}
+    prs = run_paths(ctx, fn, rule="C2", limit=4000)
+    unknown_tests = set()
+    for p in prs:
+        facts = {}
+        contradictory = False
+        for ctext, taken, node in p.conds:
+            tst = getattr(node, "test", None)
+            c = classify(tst) if tst is not None else None
+            if c is None:
+                if tst is not None:
+                    unknown_tests.add(norm(tst)[:80])
+                continue
+            val = taken == c[1]
+            if c[0] in facts and facts[c[0]] != val:
+                contradictory = True
+            facts[c[0]] = val
+        if contradictory:
+            continue
+        if facts.get("exists") is True and facts.get("all") is True:
+            continue  # both cannot hold for a non-empty... (exists non-audio excludes all-audio)
+        calls = [(norm(c.func), evaluator(ctx, fn, e).ev(c).key()) for c, e, st in calls_on(p)
+                 if norm(c.func) in ("determine_image_type", "CompactDiskAudioImageAdapter.from_bin_cue", "open")]
+        ret = p.ret.key() if p.ret is not None else None
+        if facts.get("exists") is True:
+            case = "data"
+            ok = p.end == "return" and ret == f"determine_image_type({OPEN})" and not any(n == "CompactDiskAudioImageAdapter.from_bin_cue" for n, k in calls)
+        elif facts.get("exists") is False and facts.get("all") is True:
+            case = "audio"
+            ok = p.end == "return" and ret == f"CompactDiskAudioImageAdapter.from_bin_cue({OPEN},{SHEET})" and not any(n == "determine_image_type" for n, k in calls)
+        elif facts.get("exists") is False and facts.get("all") is False:
+            case = "neither"
+            ok = p.end == "raise" and (p.raised or "").endswith("BadCueSheet") and not any(n in ("determine_image_type", "CompactDiskAudioImageAdapter.from_bin_cue") for n, k in calls)
+        else:
+            case = "undecided"
+            ok = False
+        prev = seen.get(case)
+        seen[case] = (ok and (prev[0] if prev else True), f"end={p.end} returns `{(ret or '')[:140]}` under {facts}")
+    ok_d, det_d = seen.get("data", (False, "no path for a cue sheet with a data track"))
+    ctx.ob("C2", fn, "a cue sheet counts as a sampler image as soon as one track is not AUDIO", ok_d and "undecided" not in seen,
+           "" if ok_d and "undecided" not in seen else (det_d if not ok_d else f"a path decides on neither track test: {seen.get('undecided')} (tests seen: {sorted(unknown_tests)})"),
+           inst="exists-data-track")
+    ctx.ob("C2", fn, "data-track cue: the bin file next to the cue sheet is opened and detected like a raw image", ok_d, "" if ok_d else det_d, inst="data-branch")
+    ok_a, det_a = seen.get("audio", (False, "no path for an all-audio cue sheet"))
+    ctx.ob("C2", fn, "all-audio cue: the bin is read as CDDA with the cue sheet's tracks", ok_a, "" if ok_a else det_a, inst="audio-branch")
+    ok_n, det_n = seen.get("neither", (True, ""))
+    ctx.ob("C2", fn, "a sheet that is neither (no tracks) is rejected with BadCueSheet", ok_n, "" if ok_n else det_n, inst="neither-branch")
+    ctx.ob("C2", fn, "the decision is taken on the parsed cue sheet", ok_d or ok_a, "", inst="parse-first")
     di = ctx.fn(ACT, "determine_image_type", "C2")
     t = full(di)
     ok = "parent_directory = os.path.dirname(file)" in t and "attempt_parse_cue_sheet(lines, parent_directory)" in t
